@@ -7,7 +7,10 @@ with the vector it was computed for, under a strict <, with no write to the
 vector in between; that Nelder-Mead pairs every vertex store with the energy of
 that vertex and sorts both arrays with one permutation; that Powell keeps the
 (energy, point) pair of its line search; that the functional wrappers return the
-solver's own best pair.  NOT decided: identity of arrays at run time, float
+solver's own best pair.  Round 3: the raw cost receives a copy of the solver's vector (wrap_penalty or
+wrap_function); ensembles hand back the best member's pair on every path on
+which one was found (shared with C09.a).
+NOT decided: identity of arrays at run time, float
 equality, reducers on array-valued costs, Powell's monotonicity (brent).
 """
 import ast
